@@ -145,6 +145,8 @@ def run(cx: Cx):
             cx.inconclusive('R-ITER', 'Environment.__iter__', f"returns {v!r}: not a recognised in-order traversal of agents",
                             where=cx.where(it), function=it.qualname)
     check_lookup(cx, get.qualname, Attr(Sym(get.params[0]), 'agents'), Sym(get.params[1]), 'AgentNotFoundError')
+    from .common import check_overrides_forward
+    check_overrides_forward(cx, env.qualname, ['get_agent', '__len__', '__iter__', 'get_agents'])
 
     # ------------------------------------------------------------ clause 4: removing a present agent has no direct raise
     for fnr in (rem, sw_rem):
